@@ -70,8 +70,13 @@ def ref_J(kind, x):
         return 1 + sgn * np.exp(-1j * math.sqrt(max(-y * y - x, 0.0)))
     re = im = 0.0
     for a, b in zip(edges[:-1], edges[1:]):
-        re += _quad(lambda y: pref * y * y * math.log(abs(z(y))), a, b)
-        im += _quad(lambda y: pref * y * y * float(np.angle(z(y))), a, b)
+        # each smooth piece in two halves: QAGS copes with a logarithmic singularity at ONE end of
+        # its interval to 1e-11, with one at both ends only to 1e-5 at |x| > 100 (checked against
+        # mpmath tanh-sinh at x = -272.68)
+        m = 0.5 * (a + b)
+        for lo, hi in ((a, m), (m, b)):
+            re += _quad(lambda y: pref * y * y * math.log(max(abs(z(y)), 1e-300)), lo, hi)
+            im += _quad(lambda y: pref * y * y * float(np.angle(z(y))), lo, hi)
     re += _quad(pos, c, np.inf)
     return re, im
 
@@ -121,7 +126,12 @@ def repaired_J(obj, kind, x):
         # one quad call per smooth piece (end-point singularities are what QAGS is good at;
         # QAGP with `points=` loses 1e-4 on the logarithmic ones)
         edges = [a] + [p for p in brk if a < p < b] + [b]
-        return float(sum(_quad(func, lo, hi) for lo, hi in zip(edges[:-1], edges[1:])))
+        if np.isinf(b):
+            return float(_quad(func, a, b))
+        halves = []
+        for lo, hi in zip(edges[:-1], edges[1:]):
+            halves += [(lo, 0.5 * (lo + hi)), (0.5 * (lo + hi), hi)]
+        return float(sum(_quad(func, lo, hi) for lo, hi in halves))
     saved = I._integrator
     try:
         I._integrator = integ
